@@ -1,5 +1,6 @@
 \* 4-bit bytes (base 16): shuffle of 0..4 elements, sample(n <= 4, k <= n); tapes of up to 3 bytes explored, every tape of up to 4 bytes counted (65536 per case)
-CONSTANTS BW = 4
+CONSTANTS NaiveShuffle = FALSE
+BW = 4
 MaxN = 4
 MaxLen = 3
 FibreLen = 4
